@@ -752,7 +752,7 @@ class _G:
         if k == "leaf":
             return self.leaf()
         if k in ("Sum", "Product"):
-            n = self.pick(((2, 2, 2, 3, 3, 4)))
+            n = self.pick((2, 2, 2, 3, 3, 4))
             return [k, [self.gen(depth - 1 if i < 2 else min(depth - 1, 1))
                         for i in range(n)]]
         if k == "Quotient":
